@@ -51,7 +51,7 @@ struct _ctx {
     bool quit;                              // Context's quit flag
     uint8_t quit_code;                      // Context's quit code, returned by modules_ctx_loop()
     bool finalized;                         // Whether the context is finalized, ie: no more modules can be registered
-    bool replacing;                         // A module is being replaced (M_MOD_ALLOW_REPLACE): losing its last module does not release the context
+    uint8_t keep;                           // > 0: losing its last module does not release the context right now (a module is being replaced, or the loop is being stopped: released at its end)
     m_log_cb logger;                        // Context's log callback
     m_map_t *modules;                       // Context's modules
     m_mod_t *curr_mod;                      // Current module's being processed. NULL when we are outside of any module.
